@@ -10,6 +10,7 @@ import (
 	"encoding/csv"
 	"encoding/json"
 	"fmt"
+	"io"
 	"strings"
 	"unicode/utf8"
 
@@ -24,16 +25,20 @@ func init() {
 		Level: "exploration",
 		Race:  true,
 		Rule: "a group = one CSV text drawn from a grammar (plain/quoted fields, embedded separators, line breaks and quotes, empty fields, blank lines, ragged rows, comment lines, CR LF endings, missing final newline, and malformed quoting) + one option set (reader comma, comment, lazy quotes, trim, fields per record, reuse record; writer comma, CRLF; skipped lines 0..records+2; closing option); " +
-			"every group is pushed through EVERY destination kind of the consumer (record kinds and byte kinds; record tables fresh, pre-populated shorter / equal / longer / with spare capacity, typed-nil; kinds the codec does not document) and EVERY source kind of the producer (text kinds and record-table kinds), each on a scripted stream (1-byte / random chunks, <= 50 zero-length reads, data with EOF, fault at an offset). " +
+			"every group is pushed through EVERY destination kind of the consumer (record kinds and byte kinds; record tables fresh, pre-populated shorter / equal / longer / with spare capacity, typed-nil; kinds the codec does not document) and EVERY source kind of the producer (text kinds and record-table kinds), each on a scripted stream (1-byte / random chunks, <= 50 zero-length reads, data with EOF, fault at an offset; for some consumes a reader without Close or a *bytes.Buffer / *bytes.Reader / *strings.Reader), some with earlier and later calls on the same codec instance; one text in 40 has 120..320 records (4..12 KiB). " +
 			"expectation = encoding/csv itself with the same options, so all kinds are compared with one reference and therefore with one another. " +
 			"non-trivial = every executed case; distinct by (text feature set, direction, kind, destination pre-state, option set, stream class)",
 		Assumptions: []string{
 			"'skipped lines' are counted in records, as the parser delivers them (a quoted header spanning two lines is one)",
 			"an unset option (zero rune, zero fields-per-record) means the encoding/csv default, as the codec documents",
 			"record-table and CSVReader sources carry the records that the reference parse of the group's text yields; groups whose text does not parse are not run through those kinds",
-			"CSVWriter destinations are judged on the records passed to Write (copied at the time of the call, as csv.Writer does); aliasing is judged for record-table destinations, which the codec fills itself",
+			"CSVWriter destinations are judged on the records passed to Write (copied at the time of the call, as csv.Writer does); aliasing is judged for record-table destinations, which the codec fills itself, and for a second CSVWriter kind that keeps the very slices it is handed -- except with the reuse-record option, which means precisely that a slice handed to Write is valid during the call only (that combination is not generated and not judged)",
 			"typed-nil SOURCES and nil readers/writers are not generated (the no-panic clause names destination state and options)",
-			"whether the stream is closed is recorded, not judged (the statement has no closing clause)",
+			"whether the stream is closed is recorded, not judged (the statement has no closing clause); a stream or closable source that is still used after the codec closed it is a violation (a closed file or HTTP body fails, so records are lost): scripted streams fail once closed",
+			"a failure of the destination's or source's own methods (CSVWriter.Write / Error, io.ReaderFrom, encoding.BinaryUnmarshaler, CSVReader.Read, encoding.BinaryMarshaler) must surface as an error, like a stream fault",
+			"'the parser's error instead of partial success': after the parser's error a destination the codec fills in one piece (record tables, *[]byte, *string and their named forms) must not hold anything new; streaming destinations (writers, CSVWriter) necessarily received the records before the malformed one",
+			"what a call delivered must still be there, and share no memory with it, after later calls on the same codec instance and on a fresh one, and after the caller overwrote its *bytes.Buffer / *bytes.Reader source",
+			"record-table and CSVReader sources may also hold nil, empty and one-empty-field records: the bytes written must be what encoding/csv's writer makes of those records",
 			"a scripted read or write fault must surface as an error (a shorter success would be 'records delivered != parse of the input'); which error is not judged",
 			"for malformed input the error must be the reference parser's error (same text); this includes the io.WriterTo source (whose pipe used to surface 'io: read/write on closed pipe' from the writing side first: repaired defect)",
 			"destination kinds the codec does not document must not panic and must not report success while dropping records",
@@ -173,6 +178,17 @@ type Case struct {
 	// Warm: number of earlier calls made on the SAME codec instance (same input, throw-away
 	// destination) before the judged call, which must behave exactly like the first one.
 	Warm int `json:"warm,omitempty"`
+	// Post: later calls made AFTER the judged one (1: one more on the same codec instance with another
+	// text; 2: also one on a fresh codec with an unrelated text and default options); what the judged
+	// call delivered is then read again and must not have changed.
+	Post int `json:"post,omitempty"`
+	// RK: the reader handed to Consume. "" = the scripted io.ReadCloser; "plain" = the scripted reader
+	// without Close; "bytes.Buffer" / "bytes.Reader" / "strings.Reader" = the concrete standard types
+	// (the script S does not apply to them).
+	RK string `json:"rk,omitempty"`
+	// Table: for record-table and CSVReader SOURCES, the records handed over when they are not the
+	// parse of Text (tables holding nil or empty records, which no parse yields).
+	Table [][]string `json:"table,omitempty"`
 }
 
 func textFeatures(t string) string {
@@ -203,6 +219,8 @@ func destClass(kind string) string {
 		return "record-table"
 	case kind == "csvwriter":
 		return "csv-writer-interface"
+	case kind == "csvwriter-retaining":
+		return "csv-writer-retaining"
 	case kind == "*csv.Writer":
 		return "csv.Writer"
 	case isIn(destByteKinds, kind):
@@ -341,6 +359,18 @@ func (c *Case) fp(pre string) string {
 	if c.Warm > 0 {
 		pre += fmt.Sprintf("+warm%d", c.Warm)
 	}
+	if c.Post > 0 {
+		pre += fmt.Sprintf("+post%d", c.Post)
+	}
+	if c.RK != "" {
+		pre += "+reader=" + c.RK
+	}
+	if len(c.Table) > 0 {
+		pre += "+odd-table"
+	}
+	if len(c.Text) > 4096 {
+		pre += "+over-4KiB"
+	}
 	return strings.Join([]string{textFeatures(string(c.Text)), c.Dir, c.Kind, pre, c.Opts.set(), c.S.class(len(c.Text)), c.O.class(len(c.Text))}, "|")
 }
 
@@ -380,6 +410,153 @@ func noteClose(m *mon.M, c *Case, closes int) {
 
 // ---- consumer ----
 
+// byValueKinds are the destinations the codec fills itself, in one piece, once the input was parsed.
+var byValueKinds = []string{"*[][]string", "*named-table", "*[]named-record", "*[][]named-field", "*[]byte", "*named-bytes", "*string", "*named-string"}
+
+// held is a deep copy of what a destination holds at one moment.
+type held struct {
+	recs   [][]string
+	b      []byte
+	isRecs bool
+	isB    bool
+}
+
+func copyRecs(r [][]string) [][]string {
+	out := make([][]string, len(r))
+	for i := range r {
+		if r[i] != nil {
+			out[i] = append(make([]string, 0, len(r[i])), r[i]...)
+		}
+	}
+	return out
+}
+
+func snapshot(d dest) held {
+	var h held
+	if d.records != nil {
+		h.isRecs, h.recs = true, copyRecs(d.records())
+	}
+	if d.bytes != nil {
+		h.isB, h.b = true, append([]byte(nil), d.bytes()...)
+	}
+	return h
+}
+
+func (h held) same(d dest) bool {
+	if h.isRecs && !sameRecords(h.recs, d.records()) {
+		return false
+	}
+	if h.isB && !bytes.Equal(h.b, d.bytes()) {
+		return false
+	}
+	return true
+}
+
+func (h held) String() string {
+	if h.isRecs {
+		return shortRecs(h.recs)
+	}
+	return short(h.b)
+}
+
+func (h held) empty() bool { return len(h.recs) == 0 && len(h.b) == 0 }
+
+// consumeReader builds the reader handed to Consume. sr carries the counters of the scripted kinds (a
+// blank one for the concrete standard readers); src is the memory a *bytes.Buffer / *bytes.Reader reads from.
+func consumeReader(c *Case, text string) (rd io.Reader, sr *sReader, src []byte, ok bool) {
+	switch c.RK {
+	case "":
+		sr = newReader([]byte(text), c.S)
+		return sr, sr, nil, true
+	case "plain":
+		sr = newReader([]byte(text), c.S)
+		return readerOnly{sr}, sr, nil, true
+	case "bytes.Buffer":
+		src = []byte(text)
+		return bytes.NewBuffer(src), &sReader{}, src, true
+	case "bytes.Reader":
+		src = []byte(text)
+		return bytes.NewReader(src), &sReader{}, src, true
+	case "strings.Reader":
+		return strings.NewReader(text), &sReader{}, nil, true
+	}
+	return nil, nil, nil, false
+}
+
+// laterText is a text a later call consumes or produces: same structure as the judged one (so that it
+// parses under the same options), other letters.
+func laterText(text string) string { return strings.ToUpper(text) }
+
+// unrelatedText is a plain text, valid under the default options, longer than n bytes.
+func unrelatedText(n int) string { return strings.Repeat("x,y,z\n0,2,3\n", n/12+2) }
+
+// laterConsumes makes the calls that follow the judged one and reads again what the judged call delivered
+// (h: what it held right after the judged call). It reports whether everything is still in place.
+func laterConsumes(m *mon.M, c *Case, cons runtime.Consumer, d dest, h held, dc string) bool {
+	if c.Post <= 0 {
+		return true
+	}
+	text := string(c.Text)
+	var later []dest
+	if pd, ok := mkDest(c.Kind, 0, 0, "", false, Script{}); ok {
+		_, _ = mon.Catch(func() { _ = cons.Consume(newReader([]byte(laterText(text)), Script{}), pd.v) })
+		later = append(later, pd)
+	}
+	if c.Post >= 2 {
+		if pd, ok := mkDest("*[]byte", 0, 0, "", false, Script{}); ok {
+			_, _ = mon.Catch(func() {
+				_ = runtime.CSVConsumer().Consume(newReader([]byte(unrelatedText(len(h.b)+len(text))), Script{}), pd.v)
+			})
+			later = append(later, pd)
+		}
+	}
+	m.Class("later-calls-made")
+	if !h.same(d) {
+		m.Violate("delivered-result-altered-by-later-call/consume/"+dc, fmt.Sprintf("CSVConsumer into %s: input %s options {%s}: the judged call delivered %s; after %d later call(s) (same codec with %s, then a fresh codec with an unrelated text) the same destination reads %s", c.Kind, short([]byte(text)), c.Opts.set(), h, c.Post, short([]byte(laterText(text))), snapshot(d)), c)
+		return false
+	}
+	// what the judged call delivered must not share memory with what a later call delivered
+	var lh []held
+	for _, pd := range later {
+		lh = append(lh, snapshot(pd))
+	}
+	shared := -1
+	if d.records != nil {
+		for _, rec := range d.records() {
+			full := rec[:cap(rec)]
+			saved := append([]string(nil), full...)
+			for j := range full {
+				full[j] = "\x00verif-overwritten\x00"
+			}
+			for k, pd := range later {
+				if !lh[k].same(pd) {
+					shared = k
+				}
+			}
+			copy(full, saved)
+		}
+	}
+	if d.bytes != nil {
+		b := d.bytes()
+		full := b[:cap(b)]
+		saved := append([]byte(nil), full...)
+		for j := range full {
+			full[j] = 0xAA
+		}
+		for k, pd := range later {
+			if !lh[k].same(pd) {
+				shared = k
+			}
+		}
+		copy(full, saved)
+	}
+	if shared >= 0 {
+		m.Violate("delivered-result-shared-with-later-call/consume/"+dc, fmt.Sprintf("CSVConsumer into %s: overwriting what the judged call delivered (%s) changed what later call #%d delivered into another destination", c.Kind, h, shared+1), c)
+		return false
+	}
+	return true
+}
+
 func runConsume(m *mon.M, c *Case) {
 	text := string(c.Text)
 	recs, perr := refParse(text, c.Opts, true)
@@ -390,7 +567,12 @@ func runConsume(m *mon.M, c *Case) {
 		m.Violate("bad-replay-case", "unknown destination kind "+c.Kind, c)
 		return
 	}
-	r := newReader([]byte(text), c.S)
+	before := snapshot(d) // the destination's own pre-state, copied before the codec can touch it
+	rd, r, src, ok := consumeReader(c, text)
+	if !ok {
+		m.Violate("bad-replay-case", "unknown reader kind "+c.RK, c)
+		return
+	}
 	cons := runtime.CSVConsumer(c.Opts.sut()...)
 	for i := 0; i < c.Warm; i++ {
 		if wd, ok := mkDest(c.Kind, 0, 0, "", false, Script{}); ok {
@@ -399,10 +581,13 @@ func runConsume(m *mon.M, c *Case) {
 		}
 	}
 	var err error
-	pv, st := mon.Catch(func() { err = cons.Consume(r, d.v) })
+	pv, st := mon.Catch(func() { err = cons.Consume(rd, d.v) })
 	m.NT(c.fp(pre))
 	dc := destClass(c.Kind)
 	m.Class("consume/" + dc + "/" + pre)
+	if c.RK != "" {
+		m.Class("consume/reader=" + c.RK)
+	}
 	if pv != nil {
 		sig := "consume-panic/" + dc + "/" + pre
 		switch {
@@ -415,6 +600,23 @@ func runConsume(m *mon.M, c *Case) {
 		return
 	}
 	noteClose(m, c, r.closes)
+	if r.readsAfterClose > 0 {
+		// a closed file or HTTP body answers with an error: records are lost
+		m.Violate("stream-used-after-close/consume/reader", fmt.Sprintf("CSVConsumer into %s, options {%s}: the reader was read %d time(s) after the codec had closed it (err=%s)", c.Kind, c.Opts.set(), r.readsAfterClose, errText(err)), c)
+		return
+	}
+	if src != nil && err == nil && (d.records != nil || d.bytes != nil) {
+		// the destination must not share memory with the caller's source buffer
+		h := snapshot(d)
+		for i := range src {
+			src[i] = 0xAA
+		}
+		if !h.same(d) {
+			m.Violate("destination-aliases-source/consume/"+dc, fmt.Sprintf("CSVConsumer from a *%s into %s: the destination held %s; after the source buffer was overwritten it reads %s", c.RK, c.Kind, h, snapshot(d)), c)
+			return
+		}
+		copy(src, text)
+	}
 	documented := dc != "undocumented-kind" && dc != "record-table-named-elements" && !c.PreNil
 	if !documented {
 		// an error is a fine answer; so is a correct delivery (judged below); a success that drops records is not
@@ -429,14 +631,24 @@ func runConsume(m *mon.M, c *Case) {
 			return
 		}
 	}
-	if r.errDelivered || (d.sink != nil && d.sink.errDelivered) {
+	if collab := d.faulted != nil && d.faulted(); r.errDelivered || (d.sink != nil && d.sink.errDelivered) || collab {
 		m.Class("fault-delivered")
 		if err == nil {
 			what := "read"
 			if !r.errDelivered {
 				what = "destination-write"
 			}
-			m.Violate("stream-"+what+"-error-swallowed/consume/"+dc, fmt.Sprintf("CSVConsumer into %s: the scripted %s error was delivered and nil was returned", c.Kind, what), c)
+			sig := "stream-" + what + "-error-swallowed/consume/" + dc
+			if what == "destination-write" && collab {
+				what, sig = "destination's own (Write / Error / ReadFrom / UnmarshalBinary)", "collaborator-error-swallowed/consume/"+dc
+			}
+			m.Violate(sig, fmt.Sprintf("CSVConsumer into %s: the scripted %s error was delivered and nil was returned", c.Kind, what), c)
+		}
+		if collab {
+			m.Class("collaborator-fault-delivered/" + dc)
+		}
+		if r.errDelivered && err != nil && isIn(byValueKinds, c.Kind) && !before.same(d) {
+			m.Class("destination-touched-on-read-fault")
 		}
 		return
 	}
@@ -461,6 +673,14 @@ func runConsume(m *mon.M, c *Case) {
 			m.Violate("malformed-accepted/consume/"+dc, fmt.Sprintf("CSVConsumer into %s: input %s options {%s}: encoding/csv says %q, the consumer returned nil", c.Kind, short([]byte(text)), c.Opts.set(), perr), c)
 		} else if err.Error() != perr.Error() {
 			m.Violate("not-the-parser-error/consume/"+dc, fmt.Sprintf("CSVConsumer into %s: input %s options {%s}: encoding/csv says %q, the consumer says %q", c.Kind, short([]byte(text)), c.Opts.set(), perr, err), c)
+		} else if isIn(byValueKinds, c.Kind) && !before.same(d) {
+			// "the parser's error instead of partial success": a destination the codec fills itself must not
+			// hold a part of the malformed input next to the error (the streaming kinds cannot help it)
+			if now := snapshot(d); !now.empty() {
+				m.Violate("partial-delivery-on-error/consume/"+dc+"/"+pre, fmt.Sprintf("CSVConsumer into %s (%s): input %s options {%s}: the parser's error %q was returned, and the destination, which held %s, now holds %s", c.Kind, pre, short([]byte(text)), c.Opts.set(), err, before, now), c)
+			} else {
+				m.Class("destination-emptied-on-error")
+			}
 		}
 		return
 	}
@@ -472,11 +692,19 @@ func runConsume(m *mon.M, c *Case) {
 			return
 		}
 		got := d.records()
-		if isIn(destTableKinds, c.Kind) {
+		if c.Kind == "csvwriter-retaining" && c.Opts.Reuse {
+			m.Class("not-judged:retaining-csvwriter-with-reuse-record")
+			return
+		}
+		if isIn(destTableKinds, c.Kind) || c.Kind == "csvwriter-retaining" {
 			if i, k, al := aliased(got); al {
 				feature := "plain-options"
 				if c.Opts.Reuse {
 					feature = "reuse-record"
+				}
+				if c.Kind == "csvwriter-retaining" {
+					// the records the codec handed to the CSVWriter's Write, kept as they were handed over
+					feature = "csv-writer-retaining/" + feature
 				}
 				m.Violate("aliased-records/"+feature, fmt.Sprintf("CSVConsumer into %s: overwriting delivered record %d changed delivered record %d (options {%s}); delivered %s, expected %s", c.Kind, i, k, c.Opts.set(), shortRecs(got), shortRecs(want)), c)
 				return
@@ -488,6 +716,9 @@ func runConsume(m *mon.M, c *Case) {
 		}
 		if d.rw != nil && len(want) > 0 && (d.rw.flushes == 0 || d.rw.flushedAt != len(want)) {
 			m.Violate("csvwriter-not-flushed/consume", fmt.Sprintf("CSVConsumer into a CSVWriter: %d records written, Flush called %d times (last after %d records)", len(want), d.rw.flushes, d.rw.flushedAt), c)
+		}
+		if !laterConsumes(m, c, cons, d, snapshot(d), dc) {
+			return
 		}
 		m.Class("records-ok")
 		return
@@ -508,6 +739,9 @@ func runConsume(m *mon.M, c *Case) {
 	got := d.bytes()
 	if !bytes.Equal(got, wantBytes) {
 		m.Violate("bytes-mismatch/consume/"+dc+"/"+explainBytes(c, got, wantBytes, want, nodef, nderr == nil), fmt.Sprintf("CSVConsumer into %s (%s): input %s options {%s}\n stored   %s\n expected %s", c.Kind, pre, short([]byte(text)), c.Opts.set(), short(got), short(wantBytes)), c)
+		return
+	}
+	if !laterConsumes(m, c, cons, d, snapshot(d), dc) {
 		return
 	}
 	m.Class("bytes-ok")
@@ -626,16 +860,51 @@ func writerOptionsInvalid(o Opts) bool {
 
 // ---- producer ----
 
+func upperRecs(recs [][]string) [][]string {
+	out := copyRecs(recs)
+	for i := range out {
+		for j := range out[i] {
+			out[i][j] = strings.ToUpper(out[i][j])
+		}
+	}
+	return out
+}
+
+// laterProduces makes the calls that follow the judged one and reads again what the judged call wrote.
+func laterProduces(m *mon.M, c *Case, prod runtime.Producer, w *sWriter, table [][]string, sc string) bool {
+	if c.Post <= 0 {
+		return true
+	}
+	text := string(c.Text)
+	written, writes := append([]byte(nil), w.buf...), w.writes
+	if ps, ok := mkSource(c.Kind, []byte(laterText(text)), upperRecs(table), Script{}); ok {
+		_, _ = mon.Catch(func() { _ = prod.Produce(newWriter(Script{}), ps.v) })
+	}
+	if c.Post >= 2 {
+		_, _ = mon.Catch(func() { _ = runtime.CSVProducer().Produce(newWriter(Script{}), []byte(unrelatedText(len(text)))) })
+	}
+	m.Class("later-calls-made")
+	if !bytes.Equal(w.buf, written) || w.writes != writes {
+		m.Violate("written-result-altered-by-later-call/produce/"+sc, fmt.Sprintf("CSVProducer from %s: input %s options {%s}: the judged call wrote %s in %d writes; after %d later call(s) on other writers the same writer holds %s after %d writes", c.Kind, short([]byte(text)), c.Opts.set(), short(written), writes, c.Post, short(w.buf), w.writes), c)
+		return false
+	}
+	return true
+}
+
 func runProduce(m *mon.M, c *Case) {
 	text := string(c.Text)
 	recs, perr := refParse(text, c.Opts, true)
 	tableKind := isIn(srcTableKinds, c.Kind)
+	if tableKind && len(c.Table) > 0 {
+		// a table no parse yields (nil / empty records): the records handed over ARE the input
+		recs, perr = copyRecs(c.Table), nil
+	}
 	if tableKind && perr != nil {
 		m.Class("table-source-skipped-unparsable-text")
 		return
 	}
 	want := skipRecs(recs, c.Opts.Skip)
-	s, ok := mkSource(c.Kind, []byte(text), recs, c.O)
+	s, ok := mkSource(c.Kind, []byte(text), copyRecs(recs), c.O)
 	if !ok {
 		m.Violate("bad-replay-case", "unknown source kind "+c.Kind, c)
 		return
@@ -643,7 +912,7 @@ func runProduce(m *mon.M, c *Case) {
 	w := newWriter(c.S)
 	prod := runtime.CSVProducer(c.Opts.sut()...)
 	for i := 0; i < c.Warm; i++ {
-		if ws, ok := mkSource(c.Kind, []byte(text), recs, Script{}); ok {
+		if ws, ok := mkSource(c.Kind, []byte(text), copyRecs(recs), Script{}); ok {
 			_, _ = mon.Catch(func() { _ = prod.Produce(newWriter(Script{}), ws.v) })
 			m.Class("codec-instance-reused")
 		}
@@ -653,23 +922,46 @@ func runProduce(m *mon.M, c *Case) {
 	m.NT(c.fp(""))
 	sc := srcClass(c.Kind)
 	m.Class("produce/" + sc)
+	if tableKind && len(c.Table) > 0 {
+		m.Class("produce/table-with-nil-or-empty-records")
+	}
 	if pv != nil {
-		m.Violate("produce-panic/"+sc, fmt.Sprintf("CSVProducer from %s (%T) panicked: %v\ninput %s options {%s}\n%s", c.Kind, s.v, pv, short([]byte(text)), c.Opts.set(), st), c)
+		feat := sc
+		if tableKind && len(c.Table) > 0 {
+			feat += "/nil-or-empty-records"
+		}
+		m.Violate("produce-panic/"+feat, fmt.Sprintf("CSVProducer from %s (%T) panicked: %v\ninput %s options {%s}\n%s", c.Kind, s.v, pv, short([]byte(text)), c.Opts.set(), st), c)
 		return
 	}
 	noteClose(m, c, w.closes)
 	if c.Kind == "readcloser" && s.rd.closes == 0 {
 		m.Class("closable-source-not-closed")
 	}
+	if w.writesAfterClose > 0 {
+		m.Violate("stream-used-after-close/produce/writer", fmt.Sprintf("CSVProducer from %s, options {%s}: the writer was written to %d time(s) after the codec had closed it (err=%s, written %s)", c.Kind, c.Opts.set(), w.writesAfterClose, errText(err), short(w.buf)), c)
+		return
+	}
+	if s.rd != nil && s.rd.readsAfterClose > 0 {
+		m.Violate("stream-used-after-close/produce/source-payload", fmt.Sprintf("CSVProducer from %s, options {%s}: the closable source was read %d time(s) after the codec had closed it (err=%s)", c.Kind, c.Opts.set(), s.rd.readsAfterClose, errText(err)), c)
+		return
+	}
+	collab := s.faulted != nil && s.faulted()
 	srcFault := c.O.Fault && ((s.rd != nil && s.rd.errDelivered) || (s.wt != nil && s.wt.calls > 0))
-	if w.errDelivered || srcFault {
+	if w.errDelivered || srcFault || collab {
 		m.Class("fault-delivered")
+		if collab {
+			m.Class("collaborator-fault-delivered/" + sc)
+		}
 		if err == nil {
 			what := "write"
 			if !w.errDelivered {
 				what = "source-read"
 			}
-			m.Violate("stream-"+what+"-error-swallowed/produce/"+sc, fmt.Sprintf("CSVProducer from %s: the scripted %s error was delivered and nil was returned (written %s)", c.Kind, what, short(w.buf)), c)
+			sig := "stream-" + what + "-error-swallowed/produce/" + sc
+			if what == "source-read" && collab {
+				what, sig = "source's own (Read / MarshalBinary)", "collaborator-error-swallowed/produce/"+sc
+			}
+			m.Violate(sig, fmt.Sprintf("CSVProducer from %s: the scripted %s error was delivered and nil was returned (written %s)", c.Kind, what, short(w.buf)), c)
 		}
 		return
 	}
@@ -723,7 +1015,14 @@ func runProduce(m *mon.M, c *Case) {
 			nodef, nderr = refParse(text, c.Opts, false)
 			nodef = skipRecs(nodef, c.Opts.Skip)
 		}
-		m.Violate("bytes-mismatch/produce/"+sc+"/"+explainBytes(c, w.buf, wantBytes, want, nodef, nderr == nil), fmt.Sprintf("CSVProducer from %s: input %s options {%s}\n written  %s\n expected %s", c.Kind, short([]byte(text)), c.Opts.set(), short(w.buf), short(wantBytes)), c)
+		feat := explainBytes(c, w.buf, wantBytes, want, nodef, nderr == nil)
+		if tableKind && len(c.Table) > 0 {
+			feat = "nil-or-empty-records"
+		}
+		m.Violate("bytes-mismatch/produce/"+sc+"/"+feat, fmt.Sprintf("CSVProducer from %s: input %s options {%s}\n written  %s\n expected %s", c.Kind, short([]byte(text)), c.Opts.set(), short(w.buf), short(wantBytes)), c)
+		return
+	}
+	if !laterProduces(m, c, prod, w, recs, sc) {
 		return
 	}
 	m.Class("bytes-ok")
